@@ -141,6 +141,10 @@ def build_jobs(t, sd):
                 for lv in ([[2], [0], [1, 2, 0]] if t != "quick" else [[2]]):
                     jobs.append({"id": "%s:%s@v%d%s" % (s["name"], lv, v, "" if opt is None else "/nofp"), "family": "method:" + s["name"].split("_")[0].rstrip("0123456789"),
                                  "sig": s, "version": v, "optimize": opt, "lens": lv, "cost": len(s["params"])})
+            # the same call with assembled constants (named transaction-type constants, selectors from the constant block)
+            if any(p["kind"] == "txn" for p in s["params"]) or si % 7 == 0 or t != "quick":
+                jobs.append({"id": "%s:[2]@v%d/asm" % (s["name"], v), "family": "method-asm", "sig": s, "version": v, "optimize": None, "lens": [2],
+                             "assemble": True, "cost": len(s["params"])})
     jobs.sort(key=lambda j: -j["cost"])
     for j in jobs[:: max(1, len(jobs) // 5)]:
         j["want_sample"] = True
